@@ -5,13 +5,13 @@ import Driver.Util
 Line protocol for the C13 model (try-interrupt scheduler and guards).
 
   run <cfg> <steps> <fuel> <main> <nbeh> <beh>*  C <n> <row>*  G <n> <row>*
-    cfg  = gen | spec | 15 characters 0/1 (fields of `Cfg` in declaration order)
+    cfg  = gen | spec | 16 characters 0/1 (fields of `Cfg` in declaration order)
     beh  = P <n> g* I <n> g* [ stmt* ]
     stmt = T a | D b | U b c | Y [ stmt* ] <nh> (c [ stmt* ])* | F n [ stmt* ] | W [ stmt* ] | A | B | C | R
     row  = string of digits, one per time step (conditions 0/1, guards 0/1/2); `-` = empty row
   answer: <outcome> | <action>* | <events of step 0> ; <events of step 1> ; ...
   lower <cfg> <nbeh> <beh>*     -> ok | compile-error
-  cfg                            -> the generated configuration as 15 characters
+  cfg                            -> the generated configuration as 16 characters
 -/
 namespace Driver.C13
 open Driver Scenic.Interrupts
@@ -19,17 +19,18 @@ open Driver Scenic.Interrupts
 def cfgBits (c : Cfg) : String :=
   String.ofList ([c.condsReversed, c.handlersReversed, c.useEnabled, c.useRunning, c.firstWins,
     c.finishedContinues, c.tiCheck, c.tiCheckSkipsSub, c.checkAfterInvoke, c.checkBeforeInvoke,
-    c.startPre, c.startInv, c.stopInFinally, c.nestedFlow, c.nestedNames].map fun b => if b then '1' else '0')
+    c.startPre, c.startInv, c.stopInFinally, c.nestedFlow, c.nestedNames, c.closeBlocks].map fun b => if b then '1' else '0')
 
 def parseCfg (s : String) : Option Cfg :=
   if s == "gen" then some Scenic.Gen.interruptCfg
   else if s == "spec" then some Cfg.spec
   else match s.toList.map (· == '1') with
-    | [a, b, c, d, e, f, g, h, i, j, k, l, m, n, o] =>
+    | [a, b, c, d, e, f, g, h, i, j, k, l, m, n, o, p] =>
       if s.toList.all (fun ch => ch == '0' || ch == '1') then
         some { condsReversed := a, handlersReversed := b, useEnabled := c, useRunning := d, firstWins := e,
                finishedContinues := f, tiCheck := g, tiCheckSkipsSub := h, checkAfterInvoke := i,
-               checkBeforeInvoke := j, startPre := k, startInv := l, stopInFinally := m, nestedFlow := n, nestedNames := o }
+               checkBeforeInvoke := j, startPre := k, startInv := l, stopInFinally := m, nestedFlow := n, nestedNames := o,
+               closeBlocks := p }
       else none
     | _ => none
 
